@@ -43,9 +43,9 @@ REAL = {
 }
 REF = {v: k for k, v in REAL.items()}
 
-RC_KEYS = [str(k) for k in list(range(1, 13)) + [250, 492, 493, 499, 2000, 2222, 2499]]
+RC_KEYS = [str(k) for k in list(range(1, 13)) + [250, 492, 493, 499, 2000, 2222, 2499]] + ["01", "007"]  # the last two: written with leading zeros
 RC_SYNC_KEYS = {"5", "6", "10", "250", "2000"}  # plain `def` methods: exercise the non-coroutine branch of the dispatch
-FC_KEYS = [str(k) for k in range(901, 1000) if not 931 <= k <= 935]
+FC_KEYS = [str(k) for k in range(901, 1000) if not 931 <= k <= 935] + ["0901", "00950"]
 FC_SYNC_KEYS = {str(k) for k in range(901, 1000) if k % 7 == 0} | {"904"}
 
 
